@@ -1,0 +1,11 @@
+//go:build verif
+
+package key
+
+// Exports for the verification harness in /verif (build tag "verif"); no behaviour.
+
+const (
+	VerifKeyHeaderLen        = keyHeaderLen
+	VerifKeyVersionHeaderPos = keyVersionHeaderPos
+	VerifKeyV1BodyLen        = keyV1BodyLen
+)
